@@ -104,6 +104,8 @@ def num_kind(v):
 
 def real_expr(v):
     if isinstance(v, SymScalar):
+        if getattr(v, 'poison', False):
+            raise OutOfSubset('use of a non-finite numpy value (inf/nan)')
         return v.real()
     return to_real(v)
 
@@ -189,7 +191,10 @@ def num_binop(ex, opn, l, r):
             # python floats raise ZeroDivisionError, numpy floats warn and give inf: both are out of the real model
             if ex.decide(z3.Not(nz)):
                 if _is_np(l) or _is_np(r):
-                    raise OutOfSubset('numpy division by zero (inf/nan)')
+                    # numpy scalars do not raise: the result is inf / nan (a warning only); it may not be used afterwards
+                    bad = SymScalar(fresh_real('nonfinite'), kind, 'np.float64')
+                    bad.poison = True
+                    return bad
                 raise PyRaise('ZeroDivisionError', 'float division by zero')
         return SymScalar(a / b, kind, pt if kl != 'int' or kr != 'int' else 'float')
     if opn == 'Pow':
@@ -1591,9 +1596,12 @@ def _np_sqrt(ex, a, k):
         # numpy ufunc on a torch tensor returns a tensor of the same shape (value-abstract here)
         out = STensor(list(v.axes), v.dtype if v.dtype in T.FLOATS + T.COMPLEX else 'float64', None, lib=v.lib)
         return T.derive(out, v)
-    if isinstance(v, int) and v == 0:
-        return 0.0
-    return sym_sqrt(ex, v)
+    if isinstance(v, (int, float)) and v == 0:
+        return SymScalar(z3.RealVal(0), 'float', 'np.float64')
+    r = sym_sqrt(ex, v)
+    if isinstance(r, float):
+        return SymScalar(to_real(r), 'float', 'np.float64')
+    return r
 
 
 @ext('numpy.arange')
